@@ -69,7 +69,7 @@ func checkFindLookups(w *World, r *Report) {
 			sl := backSlice(mu.Key)
 			fromRequired := sliceHasField(sl, "Required")
 			swGuard := false
-			for _, cnd := range cconds[b] {
+			for _, cnd := range allConds(cconds, b) {
 				if dependsOnSwitch(cnd) {
 					swGuard = true
 				}
@@ -122,7 +122,7 @@ func checkFindLookups(w *World, r *Report) {
 			nApp++
 			key := r.MkKey("rangefilter", name, "append to result")
 			guarded := false
-			for _, cnd := range cconds[b] {
+			for _, cnd := range allConds(cconds, b) {
 				if cmp, ok := isCompare(cnd); ok {
 					for v := range backSlice(cmp) {
 						if isLenOfField(v, "LookupList") {
